@@ -81,6 +81,18 @@ var kindTable = []kindInfo{
 	{schema.GroupVersionKind{Group: "rbac.authorization.k8s.io", Version: "v1", Kind: "ClusterRole"}, "clusterroles", false},
 	{schema.GroupVersionKind{Group: "apiextensions.k8s.io", Version: "v1", Kind: "CustomResourceDefinition"}, "customresourcedefinitions", false},
 	{schema.GroupVersionKind{Group: "company.com", Version: "v1", Kind: "Bar"}, "bars", true},
+	// the same Kind name in another API group (its plural differs: the REST paths of the fake carry no group)
+	{schema.GroupVersionKind{Group: otherBarGroup, Version: "v1", Kind: "Bar"}, "obars", true},
+}
+
+const otherBarGroup = "other.example.com"
+
+// EntryOtherBar builds a universe entry of kind Bar in the second API group: together with
+// Entry("Bar", ns, name) two identifiers that differ in the group only.
+func EntryOtherBar(ns, name string) UEntry {
+	k := kindByResource("obars")
+	return UEntry{Meta: object.ObjMetadata{Namespace: ns, Name: name, GroupKind: k.GVK.GroupKind()},
+		APIVersion: k.APIVersion(), GVR: k.GVR(), Namespaced: true, Kind: KPlain, NsObj: -1, Crd: -1}
 }
 
 func kindByResource(res string) *kindInfo {
@@ -406,7 +418,15 @@ func content(univ Universe, id int, deps []int, bad, keep bool, ver int, owner O
 
 // Manifest is the local object handed to the Applier.
 func Manifest(univ Universe, l LObj) *unstructured.Unstructured {
-	return content(univ, l.ID, l.Deps, l.BadDep, l.Keep, l.Ver, ONone)
+	o := content(univ, l.ID, l.Deps, l.BadDep, l.Keep, l.Ver, ONone)
+	// a manifest that arrives with an owning-inventory annotation already on it (exported
+	// from a cluster, or an object struct reused across inventories): the applier overwrites it
+	if pre := univ[l.ID].PreOwner; pre != 0 {
+		ann := o.GetAnnotations()
+		ann[inventory.OwningInventoryKey] = map[int]string{1: "some-other-id", 2: invID}[pre]
+		o.SetAnnotations(ann)
+	}
+	return o
 }
 
 func liveObject(univ Universe, c CObj) *unstructured.Unstructured {
@@ -1108,10 +1128,13 @@ func (s *Server) opDelete(gvr schema.GroupVersionResource, ns, name string, opts
 
 // ---- dynamic client decorator --------------------------------------------------------------
 
-type dynClient struct{ s *Server }
+// dynClient hands every request to the server of the run that is current when
+// the request is made (one Applier object can serve several runs, each with
+// its own server front end).
+type dynClient struct{ get func() *Server }
 
 func (d *dynClient) Resource(gvr schema.GroupVersionResource) dynamic.NamespaceableResourceInterface {
-	return &dynRes{s: d.s, gvr: gvr}
+	return &dynRes{s: d.get(), gvr: gvr}
 }
 
 type dynRes struct {
